@@ -19,14 +19,18 @@ def main(tier, replay=None):
     quick = tier == "quick"
     vs = ["visco_1", "visco_3"]
     targets = [(v, m) for v in vs for m in ("jit", "vmapBatch")]
-    plan = mp.shares(targets, n_sim=150 if quick else 1500, n_ex_extra=0 if quick else 5000)
+    def limits_at_a_deformed_state(b):
+        acts = [o["a"] for o in b]
+        return "Deform" in acts and any(a in ("LimitFast", "LimitSlow") for a in acts[acts.index("Deform"):])
+    plan = mp.shares(targets, n_sim=150 if quick else 3000, n_ex_extra=0 if quick else 5000,
+                     boost=(limits_at_a_deformed_state, 150 if quick else 2000))
 
     def single(behs, rng, n=(1 if quick else 4)):
         # plain un-jitted calls re-trace everything (seconds per call): Reset, Load, Hold only
         good = sorted({json.dumps(b[:3]) for b in behs["ex"] if [o["a"] for o in b][1:3] == ["Load", "Hold"]})
         return [json.loads(g) for g in rng.sample(good, min(n, len(good)))]
     plan += [(v, "single", single) for v in (vs[:1] if quick else vs)]
-    return mp.run_check(PID, tier, replay, plan, ["viscous"], {"viscous": 200 if quick else 2000},
+    return mp.run_check(PID, tier, replay, plan, ["viscous"], {"viscous": 200 if quick else 4000},
                         rule="load histories = every action sequence of MaterialPointGen_viscous_<tier>.cfg (each to one model x "
                              "exec mode, round robin) + seeded TLC random walks; moduli and relaxation times over decades, time "
                              "steps 1e-6..1e6 tau, increments 1e-9..0.5 drawn per seed; distinct = distinct (history, model, "
